@@ -2,8 +2,8 @@
 import os
 from tools.py2lean import gen_c10, gen_c11
 
-LEAN_TARGETS = ["EasyFEAVerif.Props.C11", "EasyFEAVerif.Props.C10"]
-PROPS_MODULES = ["EasyFEAVerif.Props.C11", "EasyFEAVerif.Props.C10"]
+LEAN_TARGETS = ["EasyFEAVerif.Props.C11", "EasyFEAVerif.Props.C10", "EasyFEAVerif.Props.C11Axes"]
+PROPS_MODULES = ["EasyFEAVerif.Props.C11", "EasyFEAVerif.Props.C10", "EasyFEAVerif.Props.C11Axes"]
 TRUSTED_EXTRA = [
     "C11: np.linalg.inv is external: the theorems exhibit the closed-form inverse (C * S = 1), which the code's inv must equal by uniqueness",
     "C11: the change-of-basis matrix Get_Pmat is translated (2D and 3D branches) and proved orthogonal and equal to the Kelvin-Mandel rotation of a symmetric tensor in Props.C10 (pmat2_checks, pmat3_checks, Pm3_rotation), built and audited by this check too; Apply_Pmat, the normalisation / batching of the axes and the anisotropic law are validated by the harness (tensor rotation, Voigt vs Kelvin-Mandel), not proved",
